@@ -183,3 +183,47 @@ Definition get_length (d : ds) : nat := if Nat.eqb (ddim d) 0 then O else length
 Definition get_labels_sorted (d : ds) : list Z := distinct_labels (rows d).           (* sorted(set(labels)) *)
 Definition get_number_labels (d : ds) : nat := length (filter (fun z => Z.leb 0 z) (distinct_labels (rows d))).
 Definition has_labelless (d : ds) : bool := existsb (fun s => Z.eqb (snd s) (-1)%Z) (rows d).
+
+(* ---------------------------------------------------------------- phase 3: remove_labels as a row function; split_one_vs_others *)
+(* remove_labels only rewrites _data: new rows = rl_rows idx (old rows) (Proofs/DataSetLabels.v: remove_labels_form) *)
+Definition rl_rows (idx : list nat) (l : list sample) : list sample :=
+  let ll := filter (fun s => Z.eqb (snd s) (-1)%Z) l in
+  let lf := filter (fun s => Z.leb 0 (snd s)) l in
+  match ll, lf with
+  | [], _ => relabel_at idx lf
+  | _, [] => ll
+  | _, _ => relabel_at idx lf ++ ll
+  end.
+
+(* split_one_vs_others.  The result sets carry NON-INTEGER labels (1 for the class, max(-1, -(class size / size of the others)) for the
+   rest), so they are lists of (sample, rational label) pairs with the attributes of self; they are not data sets of this model.
+   `order` = self.get_labels() (CPython set order: an input, validated by label_order_ok).
+   class_numbers[j] indexes the list of class sizes with the LABEL j (negative labels from the end): IndexError = None. *)
+Definition count_label (j : Z) (l : list sample) : Z := Z.of_nat (length (filter (fun s => Z.eqb (snd s) j) l)).
+Definition py_index {A} (l : list A) (j : Z) : option A :=
+  let n := Z.of_nat (length l) in
+  if Z.leb 0 j && Z.ltb j n then nth_error l (Z.to_nat j)
+  else if Z.ltb j 0 && Z.leb (- n) j then nth_error l (Z.to_nat (n + j))
+  else None.
+Definition zsum (l : list Z) : Z := fold_right Z.add 0%Z l.
+(* max(-1, -1 * (cn / others)); others = 0: numpy gives -inf, clipped to -1 *)
+Definition ovo_label (cnj others : Z) : Qc :=
+  if Z.leb others 0 then - (1) else Qc_max (- (1)) (Q2Qc (Qopp (cnj # Z.to_pos others))).
+Definition ovo_set (order : list Z) (l : list sample) (j : Z) : option (list (row * Qc)) :=
+  let cn := map (fun k => count_label k l) order in
+  match py_index cn j with
+  | None => None
+  | Some cnj => Some (map (fun s => (fst s, if Z.eqb (snd s) j then 1 else ovo_label cnj (zsum cn - cnj))) l)
+  end.
+Fixpoint opt_list {A} (l : list (option A)) : option (list A) :=
+  match l with
+  | [] => Some []
+  | None :: _ => None
+  | Some x :: r => match opt_list r with Some r' => Some (x :: r') | None => None end
+  end.
+Definition split_one_vs_others (order : list Z) (d : ds) : option (list (list (row * Qc))) :=
+  opt_list (map (ovo_set order (rows d)) order).
+Fixpoint memz (x : Z) (l : list Z) : bool := match l with [] => false | y :: r => Z.eqb x y || memz x r end.
+Definition label_order_ok (order : list Z) (d : ds) : bool :=
+  forallb (fun x => memz x (distinct_labels (rows d))) order && forallb (fun x => memz x order) (distinct_labels (rows d))
+  && Nat.eqb (length order) (length (distinct_labels (rows d))).
